@@ -24,7 +24,7 @@
 XMLSize_t G;
 /* ghosts of the xcodeMoreChars contract (contracts/XMLReader_xcodeMoreChars.contract.inc, proved in unit rdr_xcodeMoreChars):
    GR universal index into the raw bytes (never assigned); the others are observation ghosts written by the stream / transcoder contracts */
-XMLSize_t GR, STREAM_R, XC_SEQ, XC_SRCOFS, XC_SRCCOUNT, XC_EATEN, XC_RET;
+XMLSize_t GR, STREAM_R, STREAM_SEQ, XC_SEQ, XC_SRCOFS, XC_SRCCOUNT, XC_EATEN, XC_RET;
 typedef int XMLTransService_Codes;
 //@ opaque XMLTranscoder
 
@@ -53,7 +53,7 @@ __CPROVER_requires(fCharIndex <= fCharsAvail && fCharsAvail <= kCharBufSize && !
 __CPROVER_requires(fNoMore ==> fCharIndex == fCharsAvail)
 __CPROVER_requires(fRawBufIndex <= fRawBytesAvail && fRawBytesAvail <= kRawBufSize)
 __CPROVER_requires(G < kCharBufSize && GR < kRawBufSize)
-__CPROVER_assigns(SELF, STREAM_R, XC_SEQ, XC_SRCOFS, XC_SRCCOUNT, XC_EATEN, XC_RET, verif_thrown, verif_throw_type, verif_throw_code)
+__CPROVER_assigns(SELF, STREAM_R, STREAM_SEQ, XC_SEQ, XC_SRCOFS, XC_SRCCOUNT, XC_EATEN, XC_RET, verif_thrown, verif_throw_type, verif_throw_code)
 /* RI_rdr re-established on normal and exceptional exit */
 __CPROVER_ensures(fNoMore ==> fCharIndex == fCharsAvail)
 __CPROVER_ensures(fCharIndex <= fCharsAvail && fCharsAvail <= kCharBufSize)
